@@ -312,6 +312,17 @@ def known_variants(model: Dict[str, rm.Svc], questions: Sequence[Tuple[str, int]
     if len(cands) > 1:
         for f in (lambda t: t // 2, lambda t: t // 2 + 1):
             out.append([r[:3] + (f(r[3]),) + r[4:] for r in cands])
+    # the querier may spell names differently (records are identical case-insensitively)
+    def recased(r: tuple) -> tuple:
+        r = r[:1] + (recase(r[1]),) + r[2:]
+        if r[0] in ("PTR", "CNAME"):
+            r = r[:4] + (recase(r[4]),)
+        if r[0] == "SRV":
+            r = r[:7] + (recase(r[7]),)
+        return r
+    for r in cands:
+        out.append([recased(r)])
+        out.append([recased(r)[:3] + (r[3] // 2,) + recased(r)[4:]])
     # a known answer for something else must not suppress anything
     out.append([("A", "ghost.local.", 1, 120, V4A)])
     return out
@@ -355,6 +366,24 @@ def state_oracle(hist: tuple) -> Tuple[Optional[Dict[str, Any]], int]:
                 n += 1
                 problem = evaluate(zc, model, [a, b], [], now)
                 if problem:
+                    break
+        if not problem:
+            # the same through the front door: a query datagram delivered to the listener must be answered on the wire
+            w.advance(2500)  # announcements of the last registration/update are over and more than a second old
+            for tname in sorted({d.type for d in model.values()}):
+                n += 1
+                n0 = len(w.net.trace)
+                w.net.inject(r.host, wire.query([("Q", tname, 12, 1)], id_=n & 0xFFFF), ("10.9.9.7", 5353))
+                w.advance(1300)  # aggregation (<= 500 ms) or one-second protection (<= 1.2 s), see C12
+                seen = set()
+                for s_ in w.net.trace[n0:]:
+                    m = wire.decode(s_.data)
+                    if m.is_response:
+                        seen |= {ident(a) for a in m.answers}
+                want_ptrs = {ident(d.ptr()) for d in model.values() if d.type.lower() == tname.lower()}
+                if not want_ptrs <= seen:
+                    problem = (f"query [('{tname}', 12)] delivered to the listener: pointers {sorted(want_ptrs - seen, key=repr)} "
+                               f"not answered on the wire within 1.3 s")
                     break
         excs = w.exceptions()
         if not problem and excs:
